@@ -7,6 +7,7 @@
 #define VF_INPUTS(X) X(unsigned char, path, [3]) X(unsigned char, suffix, [3]) X(unsigned char, has_suffix, ) X(unsigned char, has_value, ) X(unsigned char, m, ) X(unsigned char, opsel, ) \
     X(unsigned char, g_text, [2][26]) X(double, g_val, ) X(double, strtod_val, ) X(unsigned char, dp, )
 #include "vf.h"
+#include "vf_str.h"
 #define VF_MODEL_PRINTF
 #include "vf_libc.h"
 #include "vf_mem.h"
